@@ -74,8 +74,12 @@ SyntaxVisitor::Action TypedefNameTypeResolver::visitIdentifierDeclarator(
     PSY_ASSERT_2(decl, return Action::Quit);
     PSY_ASSERT_2(decl->kind() == SymbolKind::TypedefDeclaration, return Action::Quit);
     auto tydefDecl = decl->asTypedefDeclaration();
-    auto resolvedTy = resolve(tydefDecl->synonymizedType());
     auto tydefNameTy = tydefDecl->introducedSynonymType();
+    // The name being defined is open while its own definition is resolved: `typedef T *T;'
+    // must not make the pointer refer to itself.
+    openTydefNameTys_.insert(tydefNameTy);
+    auto resolvedTy = resolve(tydefDecl->synonymizedType());
+    openTydefNameTys_.erase(tydefNameTy);
     const_cast<TypedefNameType*>(tydefNameTy)->setResolvedSynonymizedType(resolvedTy);
 
     return Action::Skip;
